@@ -30,7 +30,9 @@ func runC04(c *an.Ctx) string {
 	r049MustValidate(c)
 	r041HandlerGate(c)
 	r172ValidateFormat(c) // R04.10: runtime format validators (rule ids R17.2/R17.3)
-	r181MergeErrors(c)    // shared with C18 (rule id R18.1): merged validation errors stay 400-class (Fault only if both are)
+	aliasFlattening(c, "R04.12")
+	r028RefsAndBases(c, "R04.11") // shared with C02/R02.8: a Reference must not drag the referenced type's validations in
+	r181MergeErrors(c)            // shared with C18 (rule id R18.1): merged validation errors stay 400-class (Fault only if both are)
 	return explanationC04
 }
 
@@ -993,4 +995,94 @@ func keywordBlocksIndependent(c *an.Ctx, rule string) {
 		return true
 	})
 	c.Check(len(chained) == 0 && len(sites) >= 9, rule, f.Name+"#independent-keywords", f.Decl.Pos(), "each validation keyword (enum, format, pattern, bounds, lengths) is emitted by its own if statement", "keyword blocks are chained with else at "+strings.Join(chained, ", ")+": when both keywords are declared only the first is enforced")
+}
+
+// aliasFlattening (R04.12, shared with C01 as R01.11): the HTTP type builder
+// replaces an attribute whose type is a primitive alias user type by the aliased
+// type. Over the path table of makeHTTPTypeRecursive, on every path where the
+// attribute's type is a user type that is neither a result type nor an object:
+// (a) the attribute takes the aliased type whether or not the user type was
+// already visited (each use of the alias is a separate attribute that must be
+// flattened); (b) the alias's validation is added to the attribute - assigned
+// when the attribute has none, merged INTO the attribute's own otherwise - and
+// the user type's (shared) validation is never the receiver of a merge or the
+// target of a store; (c) the attribute takes the alias's default value.
+func aliasFlattening(c *an.Ctx, rule string) {
+	f, t := tableOf(c, rule, "http/codegen", "makeHTTPTypeRecursive", 0)
+	if t == nil {
+		return
+	}
+	const ut = `p0.Type.(expr.UserType)?#0`
+	var probs []string
+	aliasPaths := 0
+	for i := range t.Paths {
+		p := &t.Paths[i]
+		e := pathEnv(p)
+		if !e[`p0.Type.(expr.UserType)?#1`] {
+			continue
+		}
+		isRT, knownRT := e[ut+`.(*expr.ResultTypeExpr)?#1`]
+		isObj, knownObj := e[`expr.IsObject(`+ut+`)`]
+		if !knownRT || !knownObj {
+			// the path returned before classifying the user type: only legal if it is not an alias path at all
+			if !knownRT || (!isRT && !knownObj) {
+				probs = append(probs, "a path decides what to do with a user type before testing whether it is a primitive alias (the visited test comes first): a second attribute of the same alias type keeps the user type and is not flattened")
+			}
+			continue
+		}
+		if isRT || isObj {
+			continue
+		}
+		aliasPaths++
+		var storesType, storesDefault, setsVal, mergesInto, badMerge, badStore bool
+		for _, ef := range p.Effects {
+			switch ef.Kind {
+			case "store":
+				switch {
+				case ef.Term == `p0.Type = `+ut+`.Attribute().Type`:
+					storesType = true
+				case ef.Term == `p0.DefaultValue = `+ut+`.Attribute().DefaultValue`:
+					storesDefault = true
+				case ef.Term == `p0.Validation = `+ut+`.Attribute().Validation`:
+					setsVal = true
+				case strings.HasPrefix(ef.Term, ut+`.Attribute().Validation`):
+					badStore = true
+				}
+			case "call":
+				if strings.HasPrefix(ef.Term, "(*expr.ValidationExpr).Merge(") {
+					if ef.Term == `(*expr.ValidationExpr).Merge(p0.Validation, `+ut+`.Attribute().Validation)` {
+						mergesInto = true
+					} else {
+						badMerge = true
+					}
+				}
+			}
+		}
+		typeValNil := e[`(`+ut+`.Attribute().Validation == nil)`]
+		attValNil, attValKnown := e[`(p0.Validation == nil)`]
+		if !storesType {
+			probs = append(probs, "an alias path does not give the attribute the aliased type")
+		}
+		if !storesDefault {
+			probs = append(probs, "an alias path does not give the attribute the alias's default value")
+		}
+		if badMerge || badStore {
+			probs = append(probs, "the alias type's own validation is modified (receiver of Merge or target of a store): it is shared by every attribute of that alias type, so one attribute's constraints leak to the others and its own narrowing is lost")
+		}
+		if !typeValNil {
+			if attValKnown && attValNil && !setsVal {
+				probs = append(probs, "the alias's validation is not given to an attribute that has none")
+			}
+			if attValKnown && !attValNil && !mergesInto {
+				probs = append(probs, "the alias's validation is not merged into the attribute's own validation")
+			}
+			if !attValKnown && !setsVal && !mergesInto {
+				probs = append(probs, "the alias's validation is dropped")
+			}
+		}
+	}
+	if aliasPaths < 4 {
+		probs = append(probs, fmt.Sprintf("only %d alias paths found (expected the visited × validation combinations)", aliasPaths))
+	}
+	report(c, rule, f.Name+"#alias", f, probs, fmt.Sprintf("%d alias paths: the aliased type, validation (into the attribute) and default are taken on every one, visited or not", aliasPaths))
 }
